@@ -1430,7 +1430,7 @@ package scipipe
 
 // The Go statement `go t.Execute()`: one more task execution has been started.
 
-//@ define wfRunPorts(p *Process) bool = !("" in p.PathFuncs) && (forall o string :: o in p.PathFuncs ==> o in p.outPorts && p.outPorts[o] != nil && wfOutPort(p.outPorts[o])) && (forall o1 string, o2 string :: o1 in p.PathFuncs && o2 in p.PathFuncs && o1 != o2 ==> p.outPorts[o1] != p.outPorts[o2])
+//@ define wfRunPorts(p *Process) bool = wfOutPortsToClose(p.BaseProcess) && !("" in p.PathFuncs) && (forall o string :: o in p.PathFuncs ==> o in p.outPorts && p.outPorts[o] != nil && wfOutPort(p.outPorts[o])) && (forall o1 string, o2 string :: o1 in p.PathFuncs && o2 in p.PathFuncs && o1 != o2 ==> p.outPorts[o1] != p.outPorts[o2])
 //@ define streamPort(p *Process, o string) bool = o in p.PortInfo && p.PortInfo[o].doStream
 // T(x): the x-th task received from the process's task channel (prophecy sequence of the single receiver)
 //@ define taskAt(p *Process, x int) *Task = chanInAt(curTasks[p], x)
@@ -1454,12 +1454,34 @@ package scipipe
 //@   loop 0 invariant one-execute-per-task[C04]: execSpawned == old(execSpawned) + nRecv(p)
 //@   loop 0 invariant forwarded-in-arrival-order[C04,C08]: forall o string :: o in p.PathFuncs && !streamPort(p, o) ==> outN[p.outPorts[o]] == old(outN)[p.outPorts[o]] + nRecv(p) - len(startedTasks) && (forall x int :: 0 <= x && x < nRecv(p) - len(startedTasks) ==> outAt[p.outPorts[o]][old(outN)[p.outPorts[o]] + x] == taskAt(p, x).OutIPs[o])
 //@   loop 0 invariant streamed-at-start[C17]: forall o string :: o in p.PathFuncs && streamPort(p, o) ==> outN[p.outPorts[o]] == old(outN)[p.outPorts[o]] + nRecv(p)
+//@   loop 1 invariant wf: wfProcess(p) && wfRunPorts(p) && curTasks[p] != nil && taskChanOwner(curTasks[p]) == p && tasks == curTasks[p] && taskOK(t) && t.Process == p && t == taskAt(p, nRecv(p) - 1) && nRecv(p) >= 1
+//@   loop 1 invariant vis: forall o string :: $visited[o] ==> o in t.OutIPs
+//@   loop 1 invariant queue-len: 0 <= len(startedTasks) && len(startedTasks) <= nRecv(p) - 1
+//@   loop 1 invariant queue-is-fifo: forall j int :: 0 <= j && j < len(startedTasks) ==> startedTasks[j] == taskAt(p, nRecv(p) - 1 - len(startedTasks) + j)
+//@   loop 1 invariant queue-ok: forall j int :: 0 <= j && j < len(startedTasks) ==> taskOK(startedTasks[j]) && startedTasks[j].Process == p
+//@   loop 1 invariant one-execute-per-task: execSpawned == old(execSpawned) + nRecv(p) - 1
+//@   loop 1 invariant forwarded: forall o string :: o in p.PathFuncs && !streamPort(p, o) ==> outN[p.outPorts[o]] == old(outN)[p.outPorts[o]] + nRecv(p) - 1 - len(startedTasks) && (forall x int :: 0 <= x && x < nRecv(p) - 1 - len(startedTasks) ==> outAt[p.outPorts[o]][old(outN)[p.outPorts[o]] + x] == taskAt(p, x).OutIPs[o])
+//@   loop 1 invariant streamed: forall o string :: o in p.PathFuncs && streamPort(p, o) ==> outN[p.outPorts[o]] == old(outN)[p.outPorts[o]] + nRecv(p) - ite($visited[o], 0, 1)
+//@   loop 2 invariant wf: wfProcess(p) && wfRunPorts(p) && curTasks[p] != nil && taskChanOwner(curTasks[p]) == p && (tasks == nil || tasks == curTasks[p]) && taskOK(nextTask) && nextTask.Process == p && nextTask == taskAt(p, nRecv(p) - len(startedTasks) - 1)
+//@   loop 2 invariant closed-seen: tasks == nil ==> nRecv(p) == chanTotal(curTasks[p])
+//@   loop 2 invariant vis: forall o string :: $visited[o] ==> o in nextTask.OutIPs
+//@   loop 2 invariant queue-len: 0 <= len(startedTasks) && len(startedTasks) <= nRecv(p) - 1
+//@   loop 2 invariant queue-is-fifo: forall j int :: 0 <= j && j < len(startedTasks) ==> startedTasks[j] == taskAt(p, nRecv(p) - len(startedTasks) + j)
+//@   loop 2 invariant queue-ok: forall j int :: 0 <= j && j < len(startedTasks) ==> taskOK(startedTasks[j]) && startedTasks[j].Process == p
+//@   loop 2 invariant one-execute-per-task: execSpawned == old(execSpawned) + nRecv(p)
+//@   loop 2 invariant forwarded: forall o string :: o in p.PathFuncs && !streamPort(p, o) ==> outN[p.outPorts[o]] == old(outN)[p.outPorts[o]] + nRecv(p) - len(startedTasks) - 1 + ite($visited[o], 1, 0) && (forall x int :: 0 <= x && x < nRecv(p) - len(startedTasks) - 1 + ite($visited[o], 1, 0) ==> outAt[p.outPorts[o]][old(outN)[p.outPorts[o]] + x] == taskAt(p, x).OutIPs[o])
+//@   loop 2 invariant streamed: forall o string :: o in p.PathFuncs && streamPort(p, o) ==> outN[p.outPorts[o]] == old(outN)[p.outPorts[o]] + nRecv(p)
 //@   ensures every-task-forwarded[C04,C05]: forall o string :: o in p.PathFuncs && !streamPort(p, o) ==> outN[p.outPorts[o]] == old(outN)[p.outPorts[o]] + chanTotal(curTasks[p])
 //@   ensures one-execute-per-task[C04]: execSpawned == old(execSpawned) + chanTotal(curTasks[p])
 
-//@ define wfOutPortsToClose(p *BaseProcess) bool = p.outPorts != nil && (forall o string :: o in p.outPorts ==> p.outPorts[o] != nil && wfOutPort(p.outPorts[o]) && wfPortKeys(p.outPorts[o]) && p.outPorts[o].process != nil && (forall r string :: r in p.outPorts[o].RemotePorts ==> p.outPorts[o].RemotePorts[r].RemotePorts != nil))
+//@ define wfOutPortsToClose(p *BaseProcess) bool = p.outPorts != nil && (forall o1 string, o2 string :: o1 in p.outPorts && o2 in p.outPorts && o1 != o2 ==> p.outPorts[o1] != p.outPorts[o2] && p.outPorts[o1].RemotePorts != p.outPorts[o2].RemotePorts) && (forall o string :: o in p.outPorts ==> p.outPorts[o] != nil && wfOutPort(p.outPorts[o]) && wfPortKeys(p.outPorts[o]) && p.outPorts[o].process != nil && (forall r string :: r in p.outPorts[o].RemotePorts ==> p.outPorts[o].RemotePorts[r].RemotePorts != nil))
 //@ func (*BaseProcess).CloseOutPorts(p)
 //@   props C04 C05
 //@   requires wf: wfOutPortsToClose(p)
 //@   modifies map[string]*InPort, map[string]*OutPort, chanclose, locked, closeCalls
 //@   ensures nothing-sent: outN == old(outN) && outAt == old(outAt)
+//@   ensures all-closed[C05]: forall o string, r string :: o in p.outPorts ==> !(r in p.outPorts[o].RemotePorts)
+//@   loop 0 invariant vis: forall o string :: $visited[o] ==> o in p.outPorts
+//@   loop 0 invariant closed: forall o string, r string :: $visited[o] ==> !(r in p.outPorts[o].RemotePorts)
+//@   loop 0 invariant rest-wf: forall o string :: o in p.outPorts && !$visited[o] ==> p.outPorts[o] != nil && wfOutPort(p.outPorts[o]) && wfPortKeys(p.outPorts[o]) && p.outPorts[o].process != nil && (forall r string :: r in p.outPorts[o].RemotePorts ==> p.outPorts[o].RemotePorts[r].RemotePorts != nil)
+//@   loop 0 invariant distinct: forall o1 string, o2 string :: o1 in p.outPorts && o2 in p.outPorts && o1 != o2 ==> p.outPorts[o1] != p.outPorts[o2] && p.outPorts[o1].RemotePorts != p.outPorts[o2].RemotePorts
